@@ -16,7 +16,9 @@ import (
 	"tinkverif/guard"
 )
 
-func init() { Registry["C06"] = c06 }
+func init() {
+	Registry["C06"] = func(c *Ctx) { c06(c); c06Suite(c) }
+}
 
 func c06(c *Ctx) {
 	r := c.R
@@ -515,4 +517,79 @@ func c06CtxInfo(c *Ctx) {
 	}
 	r.Counts["hybrid_methods"] = n
 	r.Min("C06.ctxinfo", 8)
+}
+
+// c06Suite: the HPKE primitive factories pair every identifier with the
+// algorithm RFC 9180 §7 assigns to it — folded by constant propagation through
+// the constructors: the object built for KEM 0x0011 must say KEM 0x0011 and
+// derive its shared secret with SHA-384, etc. A constructor the propagator
+// cannot fold (table-driven rewrite) is reported as outside the rule.
+func c06Suite(c *Ctx) {
+	p, r := c.P, c.R
+	rel := "hybrid/internal/hpke"
+	type probe struct {
+		fn      string
+		id      int64
+		idField []string
+		field   []string
+		want    string // ExactString of the expected constant
+		what    string
+	}
+	probes := []probe{
+		{"newKEM", 0x10, []string{"kemID"}, []string{"hmacHashAlg", "hashAlg"}, `"SHA256"`, "DHKEM(P-256, HKDF-SHA256)"},
+		{"newKEM", 0x11, []string{"kemID"}, []string{"hmacHashAlg", "hashAlg"}, `"SHA384"`, "DHKEM(P-384, HKDF-SHA384)"},
+		{"newKEM", 0x12, []string{"kemID"}, []string{"hmacHashAlg", "hashAlg"}, `"SHA512"`, "DHKEM(P-521, HKDF-SHA512)"},
+		{"newKEM", 0x20, []string{"kemID"}, []string{"hmacHashAlg", "hashAlg"}, `"SHA256"`, "DHKEM(X25519, HKDF-SHA256)"},
+		{"newKDF", 1, []string{"kdfID"}, []string{"hashFunction"}, "5", "HKDF-SHA256 (crypto.SHA256)"},
+		{"newKDF", 2, []string{"kdfID"}, []string{"hashFunction"}, "6", "HKDF-SHA384 (crypto.SHA384)"},
+		{"newKDF", 3, []string{"kdfID"}, []string{"hashFunction"}, "7", "HKDF-SHA512 (crypto.SHA512)"},
+		{"newAEAD", 1, []string{"aeadID"}, []string{"keyLen", "keyLength"}, "16", "AES-128-GCM"},
+		{"newAEAD", 2, []string{"aeadID"}, []string{"keyLen", "keyLength"}, "32", "AES-256-GCM"},
+	}
+	// the package's own HashType constants name the hash (SHA256, SHA384, SHA512)
+	for i := range probes {
+		if strings.HasPrefix(probes[i].want, `"SHA`) {
+			name := strings.Trim(probes[i].want, `"`)
+			if v, ok := constOf(p, rel, name); ok {
+				probes[i].want = v.ExactString()
+				probes[i].what += " = hpke." + name
+			}
+		}
+	}
+	ev := consteval.New()
+	n := 0
+	for _, pb := range probes {
+		f := p.PkgFunc(rel, pb.fn)
+		key := fmt.Sprintf("C06.suite/%s(%#x)", pb.fn, pb.id)
+		if f == nil {
+			r.Outside("C06.suite", key, "-", "factory "+pb.fn+" not found under this name")
+			continue
+		}
+		outs, ok := ev.Eval(f, []consteval.Val{consteval.C(pb.id)}, nil)
+		var st map[string]consteval.Val
+		for _, o := range outs {
+			if !o.IsErr() {
+				st = o.Stores
+			}
+		}
+		get := func(names []string) (string, bool) {
+			for _, nme := range names {
+				if v, has := st[nme]; has && v.K == consteval.Const {
+					return v.C.ExactString(), true
+				}
+			}
+			return "", false
+		}
+		idv, okID := get(pb.idField)
+		alg, okAlg := get(pb.field)
+		if !ok || st == nil || !okID || !okAlg {
+			r.Outside("C06.suite", key, p.FuncPos(f), "the constructor does not fold to constant fields (table-driven form): not decided here")
+			continue
+		}
+		n++
+		r.Check(idv == fmt.Sprint(pb.id) && alg == pb.want, "C06.suite", key, p.FuncPos(f),
+			fmt.Sprintf("the primitive built for identifier %#x carries id %s and algorithm parameter %s; RFC 9180 §7 assigns %s (%s)", pb.id, idv, alg, pb.want, pb.what),
+			fmt.Sprintf("id %s, parameter %s (%s)", idv, alg, pb.what))
+	}
+	r.Counts["suite_probes_folded"] = n
 }
